@@ -25,6 +25,19 @@ func (x *Exec) callArgs(st *State, fr *Frame, cc *ssa.CallCommon) []Val {
 
 func (x *Exec) staticCallee(st *State, fr *Frame, cc *ssa.CallCommon) (*ssa.Function, []Val) {
 	if cc.IsInvoke() {
+		// devirtualize when the dynamic type of the receiver is known on this path
+		recv := x.val(st, fr, cc.Value)
+		if recv.K == KIface && isNumLit(recv.Fs[0].T.S) && !strings.HasPrefix(recv.Fs[0].T.S, "(") {
+			id, _ := strconv.Atoi(recv.Fs[0].T.S)
+			if id >= 1 && id <= len(x.reg.typeByID) {
+				t := x.reg.typeByID[id-1]
+				if sel := x.P.prog.MethodSets.MethodSet(t).Lookup(cc.Method.Pkg(), cc.Method.Name()); sel != nil {
+					if fn := x.P.prog.MethodValue(sel); fn != nil && x.P.inRepo(fn) {
+						return fn, nil
+					}
+				}
+			}
+		}
 		return nil, nil
 	}
 	switch f := cc.Value.(type) {
@@ -45,6 +58,9 @@ func (x *Exec) staticCallee(st *State, fr *Frame, cc *ssa.CallCommon) (*ssa.Func
 
 func (x *Exec) calleeName(st *State, fr *Frame, cc *ssa.CallCommon) string {
 	if cc.IsInvoke() {
+		if f, _ := x.staticCallee(st, fr, cc); f != nil {
+			return normName(f.String())
+		}
 		return ifaceMethodName(cc)
 	}
 	if b, ok := cc.Value.(*ssa.Builtin); ok {
@@ -223,6 +239,15 @@ func (x *Exec) doCall(st *State, fr *Frame, at ssa.Instruction, cc *ssa.CallComm
 		args = x.callArgs(st, fr, cc)
 	}
 	callee := x.calleeName(st, fr, cc)
+	if cc.IsInvoke() && len(args) > 0 && args[0].K == KIface {
+		if f, _ := x.staticCallee(st, fr, cc); f != nil && len(f.Params) > 0 {
+			// devirtualized: the receiver is the value inside the interface
+			rt := f.Params[0].Type()
+			if pt, ok := under(rt).(*types.Pointer); ok {
+				args = append([]Val{{K: KPtr, Typ: rt, P: &Ptr{Kind: PObj, Base: args[0].Fs[1].T, Elem: pt.Elem()}}}, args[1:]...)
+			}
+		}
+	}
 	x.callSite(st, fr, kind, callee, args, nil, "before", at)
 	ev := x.addEvent(st, kind, callee, args)
 	if kind == "go" {
@@ -233,6 +258,18 @@ func (x *Exec) doCall(st *State, fr *Frame, at ssa.Instruction, cc *ssa.CallComm
 	if b, ok := cc.Value.(*ssa.Builtin); ok && !cc.IsInvoke() {
 		rets := x.builtin(st, fr, b, cc, args, retTo)
 		x.setRet(st, fr, retTo, rets, ev)
+		return true
+	}
+	// reflect.ValueOf(x).IsNil(): nil-ness of the pointer inside an interface value
+	if callee == "reflect.ValueOf" && len(args) == 1 && args[0].K == KIface {
+		v := args[0]
+		v.Typ = nil
+		x.setRet(st, fr, retTo, []Val{{K: KTuple, Fs: []Val{v}, Typ: nil}}, ev)
+		x.trust("library-model reflect.ValueOf(x).IsNil() is true iff x holds a nil pointer (or is nil)")
+		return true
+	}
+	if callee == "(reflect.Value).IsNil" && len(args) == 1 && args[0].K == KTuple && len(args[0].Fs) == 1 && args[0].Fs[0].K == KIface {
+		x.setRet(st, fr, retTo, []Val{scalar(tEq(args[0].Fs[0].Fs[1].T, tZero), types.Typ[types.Bool])}, ev)
 		return true
 	}
 	if x.sortCall(st, fr, callee, args) {
